@@ -17,6 +17,14 @@ import (
 	"github.com/consensys/gnark-crypto/field/koalabear"
 	kbp2 "github.com/consensys/gnark-crypto/field/koalabear/poseidon2"
 	kbsis "github.com/consensys/gnark-crypto/field/koalabear/sis"
+	"github.com/consensys/gnark-crypto/field/koalabear/vortex"
+	fext "github.com/consensys/gnark-crypto/field/koalabear/extensions"
+	"github.com/consensys/gnark-crypto/field/babybear"
+	bbsis "github.com/consensys/gnark-crypto/field/babybear/sis"
+	"github.com/consensys/gnark-crypto/field/goldilocks"
+	glsis "github.com/consensys/gnark-crypto/field/goldilocks/sis"
+	fr377 "github.com/consensys/gnark-crypto/ecc/bls12-377/fr"
+	sis377 "github.com/consensys/gnark-crypto/ecc/bls12-377/fr/sis"
 )
 
 // C18: many goroutines use the same read-only argument objects at once; every one must obtain
@@ -120,6 +128,45 @@ func init() {
 	for i := range sisIn {
 		sisIn[i].SetUint64(uint64(i*i + 11))
 	}
+	sisBig, _ := kbsis.NewRSis(5, 9, 16, 600)
+	sisInBig := make([]koalabear.Element, 600)
+	for i := range sisInBig {
+		sisInBig[i].SetUint64(uint64(i*i*31 + 7))
+	}
+	sisBB, _ := bbsis.NewRSis(5, 4, 8, 64)
+	sisInBB := make([]babybear.Element, 64)
+	for i := range sisInBB {
+		sisInBB[i].SetUint64(uint64(i*i + 13))
+	}
+	sisGL, _ := glsis.NewRSis(5, 4, 16, 64)
+	sisInGL := make([]goldilocks.Element, 64)
+	for i := range sisInGL {
+		sisInGL[i].SetUint64(uint64(i*i+17) * 0x9E3779B97F4A7C15)
+	}
+	sis377a, _ := sis377.NewRSis(5, 6, 16, 20)
+	sis377b, _ := sis377.NewRSis(5, 3, 8, 20)
+	sisIn377 := make([]fr377.Element, 20)
+	for i := range sisIn377 {
+		sisIn377[i].SetUint64(uint64(i*i + 19))
+		sisIn377[i].Square(&sisIn377[i]).Square(&sisIn377[i]).Square(&sisIn377[i]).Square(&sisIn377[i]).Square(&sisIn377[i])
+	}
+	vsis, _ := kbsis.NewRSis(7, 4, 8, 8)
+	vparams, verr := vortex.NewParams(8, 8, vsis, 2, 3)
+	if verr != nil {
+		panic(verr)
+	}
+	vinput := make([][]koalabear.Element, 8)
+	for i := range vinput {
+		vinput[i] = make([]koalabear.Element, 8)
+		for j := range vinput[i] {
+			vinput[i][j].SetUint64(uint64(1000*i + j*j + 3))
+		}
+	}
+	var valpha fext.E4
+	valpha.B0.A0.SetUint64(3)
+	valpha.B0.A1.SetUint64(5)
+	valpha.B1.A0.SetUint64(7)
+	valpha.B1.A1.SetUint64(11)
 	perm := kbp2.NewPermutation(16, 6, 21)
 	data := make([]byte, 4*fr.Bytes)
 	for i := range data {
@@ -185,6 +232,43 @@ func init() {
 			res := make([]koalabear.Element, 16)
 			err := sis.Hash(sisIn, res)
 			return d(res) + d(err)
+		}},
+		{"SIS.Hash(shared key, koalabear degree 512 / 16-bit limbs)", func() string {
+			res := make([]koalabear.Element, 512)
+			err := sisBig.Hash(sisInBig, res)
+			return d(res[:8]) + d(res[500:]) + d(err)
+		}},
+		{"SIS.Hash(shared key, babybear)", func() string {
+			res := make([]babybear.Element, 16)
+			err := sisBB.Hash(sisInBB, res)
+			return d(res) + d(err)
+		}},
+		{"SIS.Hash(shared key, goldilocks)", func() string {
+			res := make([]goldilocks.Element, 16)
+			err := sisGL.Hash(sisInGL, res)
+			return d(res) + d(err)
+		}},
+		{"SIS.Hash(shared key, bls12-377 degree 64 / 16-bit limbs)", func() string {
+			res := make([]fr377.Element, 64)
+			err := sis377a.Hash(sisIn377, res)
+			return d(res[:4]) + d(res[60:]) + d(err)
+		}},
+		{"SIS.Hash(shared key, bls12-377 degree 8 / 8-bit limbs)", func() string {
+			res := make([]fr377.Element, 8)
+			err := sis377b.Hash(sisIn377, res)
+			return d(res) + d(err)
+		}},
+		{"vortex.Commit + OpenLinComb + OpenColumns(shared parameters and input matrix)", func() string {
+			ps, err := vortex.Commit(vparams, vinput)
+			if err != nil {
+				return d(err)
+			}
+			ps.OpenLinComb(valpha)
+			pr, err := ps.OpenColumns([]int{0, 5, 15})
+			if err != nil {
+				return d(err)
+			}
+			return d(ps.GetCommitment()) + d(pr.UAlpha) + d(pr.OpenedColumns)
 		}},
 		{"Poseidon2.Permutation(shared parameters)", func() string {
 			in := make([]koalabear.Element, 16)
